@@ -158,8 +158,16 @@ Definition choose (cs : list route) (m : str) (ps : list str) : outcome :=
 
 Definition find_parts (T : list route) (m : str) (ps : list str) : outcome := choose (cands T m ps) m ps.
 
+(* the repaired FindRoute starts with: if path == "" { path = "/" } *)
+Definition norm_path (p : str) : str := norm (match p with [] => [SLASH] | _ => p end).
+
 (* FindRoute(method, path) with the routes visited in the order of T *)
 Definition find_route (T : list route) (method path : str) : outcome :=
+  find_parts T (upper method) (split (norm_path path)).
+
+(* FindRoute before the repair: the empty path was split into the single segment "", which every
+   endpoint pattern accepts (endpoint segments beyond the end of the path are copied into the mask) *)
+Definition find_route_old (T : list route) (method path : str) : outcome :=
   find_parts T (upper method) (split (norm path)).
 
 (* ---------------------------------------------------------------- decidable determinism *)
